@@ -261,8 +261,10 @@ def check_signed(case, ctx):
     st_, r = attempt(sp.sign)
     require(st_ == "ok", f"signed/{sp.typ}:signing_raises", f"{type(r).__name__}: {r}")
     require(r is None or r is True, f"signed/{sp.typ}:sign_call_reports_invalid", repr(r))
-    with time_limit(20):
+    with time_limit(120):
         st_, ok = attempt(sp.tx.verify_input, sp.idx)
+    if st_ == "exc" and isinstance(ok, CaseTimeout):
+        raise Discard("verification did not finish within 120 s (overloaded machine): inconclusive")
     require(st_ == "ok" and ok is True, f"signed/{sp.typ}:valid_spend_rejected",
             f"{st_}:{ok!r} m={sp.m} n={sp.n} n_in={case['n_in']} idx={sp.idx}")
     # the signed transaction survives its own wire codec and still verifies
@@ -348,8 +350,12 @@ def check_mutated(case, ctx):
     ctx.label("mut:" + mut)
     ctx.nontrivial()
     sp.sign()
-    with time_limit(20):
-        require(tx.verify_input(idx) is True, f"mutated/{typ}:baseline_invalid")
+    try:
+        with time_limit(120):
+            base_ok = tx.verify_input(idx)
+    except CaseTimeout:
+        raise Discard("verification did not finish within 120 s (overloaded machine): inconclusive")
+    require(base_ok is True, f"mutated/{typ}:baseline_invalid")
     tin = tx.tx_ins[idx]
     d, w = case["delta"], case["which"]
     taproot = typ in TAPROOT
